@@ -1,5 +1,5 @@
 (** Property C04 — a transaction never spends one UTxO through two input blocks. *)
-From Tx3 Require Import Base Assets Select Select_proofs.
+From Tx3 Require Import Base Assets Select Select_proofs Select_flat.
 
 Theorem C04_selections_disjoint : forall st bs out,
   resolve_inputs st bs = Ok out -> chain_disjoint (regular_sels bs out).
@@ -13,7 +13,14 @@ Proof. intros st bs sel out. exact (resolve_blocks_disjoint st bs sel out). Qed.
 Theorem C04_no_reuse_fails : forall st bs out,
   resolve_inputs st bs = Ok out -> length out = length bs /\ forall ns, ns ∈ out -> ns.2 <> [].
 Proof. exact no_reuse_fails. Qed.
+(** the body's input list is the concatenation of the regular blocks' selections: it holds every
+    reference once (the order oracle of each block lists no reference twice) *)
+Theorem C04_flattened_inputs_distinct : forall st bs out,
+  (forall b, b ∈ bs -> NoDup (o_sorted b.2)) ->
+  resolve_inputs st bs = Ok out -> NoDup (concat (regular_sels bs out)).
+Proof. exact flattened_inputs_distinct. Qed.
 
 Print Assumptions C04_selections_disjoint.
 Print Assumptions C04_ignore_invariant.
 Print Assumptions C04_no_reuse_fails.
+Print Assumptions C04_flattened_inputs_distinct.
